@@ -36,7 +36,7 @@ from ofxtools.models.bank.stmt import BANKACCTFROM, CCACCTFROM, REWARDINFO
 from ofxtools.models.i18n import CURRENCY, ORIGCURRENCY, Origcurrency, CURRENCY_CODES
 
 
-class CLOSING(Aggregate, Origcurrency):
+class CLOSING(Origcurrency, Aggregate):
     """OFX section 11.5.2"""
 
     fitid = String(255, required=True)
